@@ -88,7 +88,11 @@ URL_IN_TEXT_RE = re.compile(
 URL_IN_HTML = r"""<a[^>]*\shref=(?:"([^"]*)"|'([^']*)'|([^\s>]*))[^>]*>"""
 URL_IN_HTML_BINARY = URL_IN_HTML.encode()
 
-URL_IN_HTML_RE = re.compile(URL_IN_HTML, re.I)
+# NOTE: the str patterns must be ASCII-only like their bytes twins, else \s, \b
+# and case folding differ and a document and its utf-8 bytes yield different urls
+ASCII = getattr(re, "ASCII", 0)
+
+URL_IN_HTML_RE = re.compile(URL_IN_HTML, re.I | ASCII)
 URL_IN_HTML_BINARY_RE = re.compile(URL_IN_HTML_BINARY, re.I)
 
 QUERY_VALUE_IN_URL_TEMPLATE = r"(?:^|[?&])(%s)=([^&]+)"
@@ -99,5 +103,5 @@ DOMAIN_TEMPLATE = r"^(?:https?:)?(?://)?(?:\S+(?::\S*)?@)?%s(?:[:/#]|\s*$)"
 SCRIPT_TAG = r"<script\b[^<]*(?:(?!<\/script>)<[^<]*)*<\/script>"
 SCRIPT_TAG_BINARY = SCRIPT_TAG.encode()
 
-SCRIPT_TAG_RE = re.compile(SCRIPT_TAG, re.I)
+SCRIPT_TAG_RE = re.compile(SCRIPT_TAG, re.I | ASCII)
 SCRIPT_TAG_BINARY_RE = re.compile(SCRIPT_TAG_BINARY, re.I)
